@@ -1012,6 +1012,12 @@ func checkC11(h *History, sc *ScanCtx, g *GroupCtx, r *Report) {
 		}
 	}
 	r.Covered(P, which+":stage="+string(g.Plan.Stage))
+	// the same, independent of log texts: what the (real-taint) view says the dry group is facing
+	room := "noroom"
+	if len(g.View.Untainted) > g.Cfg.Min {
+		room = "room"
+	}
+	r.Covered(P, fmt.Sprintf("%s:facing=%s:%s:%s:tainted%d:force%d", which, g.Plan.Stage, g.Plan.Band, room, minI(len(g.View.TaintedN), 1), minI(len(g.View.Force), 1)))
 }
 
 // ---- C12 (direct attribution) ----------------------------------------------------------------------
